@@ -40,7 +40,7 @@ pub struct Plan {
 fn gen(seed: u64, tier: Tier) -> Plan {
     let mut rng = Rng::new(seed);
     let n = rng.range(5, if tier == Tier::Quick { 60 } else { 200 });
-    let kinds = ["announce", "announce", "announce", "announce-fake", "round", "round", "complete-ok", "complete-ok", "complete-ok", "complete-garbage", "complete-wrong", "fail", "fail", "disconnect"];
+    let kinds = ["announce", "announce", "announce", "announce-fake", "round", "round", "complete-ok", "complete-ok", "complete-ok", "complete-garbage", "complete-wrong", "fail", "fail", "disconnect", "request-then-announce"];
     let ops = (0..n).map(|_| Op { k: rng.pick(&kinds).to_string(), a: rng.below(16), b: rng.below(16) }).collect();
     Plan {
         seed,
@@ -152,7 +152,16 @@ impl Scenario for C16 {
             let new: Vec<PendingFetch> = sim.fetch_log[*seen_log..].to_vec();
             *seen_log = sim.fetch_log.len();
             // (3) not already in flight for that peer
-            let mut inflight_now: Vec<(u64, [u8; 32])> = prev_inflight.clone();
+            // in flight before these requests = what is pending now minus the new requests themselves (one
+            // occurrence each): a block whose fetch completed during this operation and is then asked for
+            // again is not "in flight twice"
+            let _ = prev_inflight;
+            let mut inflight_now: Vec<(u64, [u8; 32])> = sim.fetches.iter().map(|f| (f.peer, f.hash)).collect();
+            for f in &new {
+                if let Some(pos) = inflight_now.iter().position(|x| *x == (f.peer, f.hash)) {
+                    inflight_now.remove(pos);
+                }
+            }
             for f in &new {
                 if inflight_now.contains(&(f.peer, f.hash)) {
                     r.violate("C16|same-block-in-flight-twice", format!("op {}: block id {} requested from peer {} while a fetch of it from that peer is still in flight", step, f.id, f.peer));
@@ -226,6 +235,21 @@ impl Scenario for C16 {
                         } else {
                             r.probe("announcement_below_lowest_acceptable_id");
                         }
+                    }
+                }
+                "request-then-announce" => {
+                    // the consensus processor asks the router to fetch a block from a peer (as it does for a
+                    // missing parent) and the peer's own announcement of the same block follows before any
+                    // selection round: the block is offered twice for that peer within one round
+                    let (c, idx, _) = peer_conn[(op.a % np) as usize];
+                    let u = universe[(op.b as usize) % universe.len()];
+                    let (hash, id) = (w.recs[u].hash, w.recs[u].id);
+                    let lowest = block_on(sim.nodes[n].blockchain_lock.read()).lowest_acceptable_block_id;
+                    if sim.conns[c].open && id > lowest {
+                        sim.nodes[n].q_routing.push_back(saito_core::core::routing_thread::RoutingEvent::BlockFetchRequest(idx, hash, id));
+                        sim.ext_send(c, Message::BlockHeaderHash(hash, id).serialize());
+                        announced.push((idx, hash, id));
+                        r.fault("fetch_request_and_announcement_in_one_round", 1);
                     }
                 }
                 "round" => {
